@@ -59,7 +59,7 @@ CHECKS["C02"] = dict(
          "regenerated into Gen/Constants.v on every run.")
 
 CHECKS["C18"] = dict(
-    technique="Coq proof over the reals (Model/ForceBias.v upd_tanh/upd_exp/delta_of, Proofs/AdaptiveProofs.v, Props/C18.v) + "
+    technique="Coq proof over the reals (Model/ForceBias.v upd_tanh/upd_exp/delta_of, Proofs/AdaptiveProofs.v, Proofs/VariationProofs.v, Props/C18.v) + "
               "per-case comparison |model - impl| <= 64 ulp decided by the Coq-Interval tactic against real "
               "AdaptiveForceBias.update_delta()",
     text="Theorems for all lo <= hi, r > 0, v >= 0 and both shipped update functions: delta in [lo, hi], = hi at zero variance, "
